@@ -153,9 +153,13 @@ StackTrace:
 		// wait until logs need to be processed
 		select {
 		case <-logsWaiting: // normal process
+			verifEvent("w:token")
 			logsWaitingFlag.UnSet()
+			verifEvent("w:unset")
 		case <-forceEmptyingOfBuffer: // log buffer is full!
+			verifEvent("w:force")
 		case <-shutdownSignal: // shutting down
+			verifEvent("w:shut")
 			finalizeWriting()
 			return
 		}
@@ -163,8 +167,11 @@ StackTrace:
 		// wait for timeslot to log
 		select {
 		case <-writeTrigger: // normal process
+			verifEvent("w:slot")
 		case <-forceEmptyingOfBuffer: // log buffer is full!
+			verifEvent("w:force")
 		case <-shutdownSignal: // shutting down
+			verifEvent("w:shut")
 			finalizeWriting()
 			return
 		}
@@ -174,6 +181,7 @@ StackTrace:
 		for {
 			select {
 			case nextLine := <-logBuffer:
+				verifEvent("w:deq", nextLine)
 				// first line we process, just assign to currentLine
 				if currentLine == nil {
 					currentLine = nextLine
@@ -197,6 +205,7 @@ StackTrace:
 				// set new currentLine
 				currentLine = nextLine
 			default:
+				verifEvent("w:empty")
 				break writeLoop
 			}
 		}
@@ -211,7 +220,9 @@ StackTrace:
 		// back down a little
 		select {
 		case <-time.After(10 * time.Millisecond):
+			verifEvent("w:timer")
 		case <-shutdownSignal:
+			verifEvent("w:shut")
 			finalizeWriting()
 			return
 		}
@@ -223,8 +234,10 @@ func finalizeWriting() {
 	for {
 		select {
 		case line := <-logBuffer:
+			verifEvent("w:fdeq", line)
 			adapter.Write(line, 0)
 		case <-time.After(10 * time.Millisecond):
+			verifEvent("w:ftimeout")
 			fmt.Printf("%s%s %s EOF%s\n", InfoLevel.color(), time.Now().Format(timeFormat), leftArrow, endColor())
 			return
 		}
